@@ -71,12 +71,16 @@ package vgirpc
 //@   at call (http.Header).Set assert [header] arg2 == cw.encoding && arg1 == (cw.useCustomHeader ? "X-VGI-Content-Encoding" : "Content-Encoding")
 
 // parseAcceptEncoding: the token list has no empty token and no duplicate (first occurrence
-// wins), for every header string.
+// wins), for every header string; every token is trimmed of white space, lower-case and carries
+// no ';' (the q-value parameter is cut off), so that a codec name is recognised however the
+// client spaces its header.
 //
 //@ func parseAcceptEncoding
 //@   property C17
 //@   nopanic(index, slice)
 //@   loop 0 invariant forall k int :: 0 <= k && k < len(out) ==> out[k] != "" && has(seen, out[k])
 //@   loop 0 invariant forall j int, k int :: 0 <= j && j < k && k < len(out) ==> out[j] != out[k]
+//@   loop 0 invariant forall k int :: 0 <= k && k < len(out) ==> trimmed(out[k]) && lowered(out[k]) && !hasByte(out[k], 59)
+//@   ensures [local_clean_ret2] forall k int :: 0 <= k && k < len(out) ==> trimmed(out[k]) && lowered(out[k]) && !hasByte(out[k], 59)
 //@   ensures [local_nodup_ret2] (forall k int :: 0 <= k && k < len(out) ==> out[k] != "") &&
 //@       (forall j int, k int :: 0 <= j && j < k && k < len(out) ==> out[j] != out[k])
